@@ -78,18 +78,27 @@ let of_str s = of_list of_n s
 let of_opt f = function None -> A "none" | Some x -> L [A "some"; f x]
 let of_pair f g (a, b) = L [f a; g b]
 
-(* main loop: one request per line, one reply per line *)
+(* main loop: one request per line, one reply per line.  Each request gets a CPU-time budget (the extracted
+   evaluators are bounded in depth by fuel, not in work): SIGALRM raises Timeout at the next allocation. *)
+exception Timeout
+let request_seconds = ref 4
 let serve (handle : sexp -> sexp) =
+  (try request_seconds := int_of_string (Sys.getenv "MODELRUN_SECONDS") with _ -> ());
+  Sys.set_signal Sys.sigalrm (Sys.Signal_handle (fun _ -> raise Timeout));
   (try
     while true do
       let line = input_line stdin in
       if String.length line > 0 then begin
         let reply =
-          try show (handle (parse_sexp line))
+          try
+            ignore (Unix.alarm !request_seconds);
+            let r = show (handle (parse_sexp line)) in
+            ignore (Unix.alarm 0); r
           with
-          | Stack_overflow -> "(error stack-overflow)"
-          | Failure m -> "(error " ^ String.concat "_" (String.split_on_char ' ' m) ^ ")"
-          | Not_found -> "(error not-found)"
+          | Timeout -> "(timeout)"
+          | Stack_overflow -> ignore (Unix.alarm 0); "(error stack-overflow)"
+          | Failure m -> ignore (Unix.alarm 0); "(error " ^ String.concat "_" (String.split_on_char ' ' m) ^ ")"
+          | Not_found -> ignore (Unix.alarm 0); "(error not-found)"
         in
         print_string reply; print_newline ()
       end
